@@ -11,7 +11,7 @@ import math
 import numpy as np
 from numpy.polynomial import legendre as L
 
-from ..kernel import chance, pick, wpick, adigest, Precondition, scribble, Held
+from ..kernel import chance, pick, wpick, adigest, sdigest, Precondition, scribble, Held
 from .. import present
 
 REAL = ["esutil.integrate.QGauss/QGauss2/qgauss/gauleg (Python + _cgauleg C)", "esutil.stat.interplin"]
@@ -243,6 +243,12 @@ def plan(S, prop, mode, tier, avoid):
             if c15:
                 op["px"] = present.draw(r, "f8")
                 op["py"] = present.draw(r, "f8")
+            elif k == "data" and not op.get("sibling") and chance(r, 0.12):
+                op["tabcol"] = True
+                prevt = [o for o in ops if o.get("tabcol")]
+                if prevt and chance(r, 0.65):
+                    q = prevt[-1]
+                    op.update({kk: q[kk] for kk in ("dseed", "m", "c", "h", "g", "even", "noise", "xdt")})
         elif k == "bad_npts":
             op["npts"] = pick(r, [0, -1, -7])
             if chance(r, 0.5):
@@ -270,6 +276,8 @@ def plan(S, prop, mode, tier, avoid):
             cy, hy = draw_interval(r)
             op.update({"cx": cx, "hx": hx, "cy": cy, "hy": hy, "gx": draw_g(r), "gy": draw_g(r),
                        "cross": round(r.uniform(-1, 1), 3)})
+            if chance(r, 0.3):
+                op["rbuf"] = True
             sty = wpick(r, [("expr", 7), ("inplace", 1.5), ("pointwise", 1.5)])
             if sty == "pointwise" and cfg["q2"][0] * cfg["q2"][1] > 700:
                 sty = "inplace"
@@ -346,6 +354,8 @@ def execute(script, run, env):
     judge = prop == "C17"
     c15 = prop == "C15"
     memo = {}
+    tabs = {}
+    q2rng = (np.empty(2), np.empty(2))      # the caller's own range arrays for QGauss2, refilled in place from call to call
     try:
         qg = integrate.QGauss(cfg["ctor_npts"]) if cfg["ctor_npts"] is not None else integrate.QGauss()
     except Exception as e:  # constructor with a valid npts must work
@@ -515,6 +525,19 @@ def execute(script, run, env):
             if c15:
                 ax, gx = present.make(x, op.get("px"))
                 ay, gy = present.make(y, op.get("py"))
+            elif op.get("tabcol"):
+                # the table lives in a big-endian record array (a FITS table): its columns are handed over as views,
+                # and the same table may be integrated again later (fresh views of the same parent)
+                key = sdigest([op.get(k_) for k_ in ("dseed", "m", "c", "h", "g", "even", "noise", "xdt")])
+                tab = tabs.get(key)
+                if tab is None:
+                    tab = tabs[key] = np.zeros(x.size, dtype=[("x", x.dtype.newbyteorder(">")), ("y", ">f8"), ("flag", "u1")])
+                    tab["x"] = x
+                    tab["y"] = y
+                else:
+                    run.fault("same_table_columns_integrated_again")
+                run.fault("abscissae_and_ordinates_are_big_endian_table_columns")
+                ax, ay = tab["x"], tab["y"]
             else:
                 ax, ay = x, y
             try:
@@ -586,7 +609,7 @@ def execute(script, run, env):
             if q2 is None:
                 run.event(0, k, "", "skipped")
                 continue
-            _do_func2(run, integrate, q2, cfg["q2"], op, judge)
+            _do_func2(run, integrate, q2, cfg["q2"], op, judge, q2rng)
 
 
 def _ncls(n):
@@ -731,7 +754,7 @@ def _judge_poly(run, integrate, op):
                                                          abs(got - exact), tol))
 
 
-def _do_func2(run, integrate, q2, nxy, op, judge):
+def _do_func2(run, integrate, q2, nxy, op, judge, q2rng=None):
     nx, ny = nxy
     cx, hx, cy, hy = op["cx"], op["hx"], op["cy"], op["hy"]
     gx, gy = make_g(op["gx"]), make_g(op["gy"])
@@ -771,7 +794,14 @@ def _do_func2(run, integrate, q2, nxy, op, judge):
         feats["style"] = style
         run.fault("two_dimensional_integrand_relies_on_full_grids")
     try:
-        got = q2.integrate_func(xr, yr, f)
+        xa, ya = xr, yr
+        if op.get("rbuf") and q2rng is not None:
+            # the ranges are the caller's own two-element arrays, refilled in place for every call
+            q2rng[0][:] = xr
+            q2rng[1][:] = yr
+            xa, ya = q2rng
+            run.fault("integration_ranges_are_arrays_refilled_in_place")
+        got = q2.integrate_func(xa, ya, f)
     except Exception as e:
         run.event(0, "func2", "%r" % ((xr, yr),), "error(%s)" % type(e).__name__)
         if judge:
